@@ -12,6 +12,7 @@ import numpy as np
 from skgstat import Variogram, DirectionalVariogram, MetricSpace
 
 from .common import quiet, all_close, close, gen_coords, gen_values
+from .common import guarded
 
 INFO = dict(
     rule='histories over an alphabet of ~24 (plain) / ~32 (directional) assignments (two values per setting incl. '
@@ -36,6 +37,9 @@ class World:
         n = int(rng.integers(22, 34))
         self.coords = gen_coords(rng, n, dim=2, kind=str(rng.choice(['uniform', 'clustered'])))
         self.vals = [gen_values(rng, self.coords, 'field'), gen_values(rng, self.coords, 'noise') * 2 + 5]
+        # value tables with the same primary variable as table 0 and a co-variable (cross-variograms)
+        self.vals.append(np.column_stack([self.vals[0], gen_values(rng, self.coords, 'noise') + 3]))
+        self.vals.append(np.column_stack([self.vals[0], gen_values(rng, self.coords, 'field') * 0.5]))
         self.directional = directional
         from scipy.spatial.distance import pdist
         dmax = float(pdist(self.coords).max())
@@ -43,7 +47,7 @@ class World:
                       [round(dmax * f, 3) for f in (0.1, 0.25, 0.45, 0.6, 0.8)]]
         self.alphabet = []
         A = self.alphabet
-        for k in (0, 1):
+        for k in (0, 1, 2, 3):
             A.append(('values', k))
         for v in (5, 8, 'current'):
             A.append(('n_lags', v))     # 'current': re-assign the number of classes in use right now
@@ -198,6 +202,7 @@ def classify(history, cfg0, what):
     return None
 
 
+@guarded
 def run_history(ctx, world, cfg0, history):
     """history: list of ('s', (name, value)) / ('r', read)"""
     directional = world.directional
